@@ -29,6 +29,7 @@ type thread struct {
 	pid     int // model process id (0 = host)
 	exited  *exitPanic
 	w       *waiter
+	gone    bool // the backing goroutine has returned
 }
 
 type scheduler struct {
@@ -90,6 +91,11 @@ func (s *scheduler) yield(th *thread, why string) {
 		next.wake <- struct{}{}
 		<-th.wake
 		if s.aborting {
+			if th.id == 0 && s.fatal != nil {
+				f := s.fatal
+				s.fatal = nil
+				panic(f)
+			}
 			panic(abortPath{"path ended"})
 		}
 		if th.blocked == nil || th.blocked() {
@@ -181,6 +187,7 @@ func (i *interpreter) spawnFrame(parent *thread, child *frame, name string, pid 
 
 func (s *scheduler) threadMain(th *thread, body func(top *frame)) {
 	defer s.wg.Done()
+	defer func() { th.gone = true }()
 	<-th.wake
 	if s.aborting {
 		th.done = true
@@ -250,7 +257,7 @@ func (s *scheduler) checkFatal() {
 func (s *scheduler) killAll() {
 	s.aborting = true
 	for _, t := range s.threads[1:] {
-		if !t.done {
+		if !t.gone {
 			select {
 			case t.wake <- struct{}{}:
 			default:
